@@ -372,8 +372,10 @@ def step (always : Bool) (t : Tree) (st : List Req) : Op → List Req × Obs
     match st[s]? with
     | none => (st, .none)
     | some rq =>
-      let (r, c) := check t rq.env rq.valid t.length i rq.cache
-      (st.set s { rq with cache := c }, .result s i r)
+      if i < t.length then     -- callers pass indices of existing contexts only
+        let rc := check t rq.env rq.valid t.length i rq.cache
+        (st.set s { rq with cache := rc.2 }, .result s i rc.1)
+      else (st, .none)
   | .setAttr s a v =>
     match st[s]? with
     | none => (st, .none)
@@ -400,8 +402,8 @@ def step (always : Bool) (t : Tree) (st : List Req) : Op → List Req × Obs
     match st[s]? with
     | none => (st, .none)
     | some rq =>
-      let (conf, c) := patch t rq.env rq.valid dirs rq.cache
-      (st.set s { rq with cache := c }, .conf s dirs conf)
+      let pc := patch t rq.env rq.valid dirs rq.cache
+      (st.set s { rq with cache := pc.2 }, .conf s dirs pc.1)
 
 /-- run a whole operation sequence, collecting the observations together with the
     state they were made in (the theorems relate each observation to the attributes
